@@ -163,7 +163,7 @@ Definition c05j_world : Jsr.jworld :=
                                                            Jsr.vi_modinfo := [(1, [])] |};
                                   Jsr.v_cached := false |})];
      Jsr.jw_match := [(1, [1])]; Jsr.jw_lock_pkg := None; Jsr.jw_lock_remote := []; Jsr.jw_http := [2];
-     Jsr.jw_missing_chk := 8; Jsr.jw_max_redirects := 10; Jsr.jw_seed := [] |}.
+     Jsr.jw_missing_chk := 8; Jsr.jw_max_redirects := 10; Jsr.jw_seed := []; Jsr.jw_late := [] |}.
 Example C05_registry_nonvacuous :
   Jsr.wf_jworld c05j_world = true /\ JsrAdmit.NoAlias c05j_world /\
   match Jsr.jbuild c05j_world {| Jsr.jo_prefer_cached := false |} [1] with
